@@ -151,9 +151,27 @@ func sigDigits(v int64) int {
 }
 
 func quoteJSON(s string) string {
-	s = strings.ReplaceAll(s, `\`, `\\`)
-	s = strings.ReplaceAll(s, `"`, `\"`)
-	return `"` + s + `"`
+	var sb strings.Builder
+	sb.WriteByte('"')
+	for i := 0; i < len(s); i++ {
+		switch c := s[i]; {
+		case c == '\\' || c == '"':
+			sb.WriteByte('\\')
+			sb.WriteByte(c)
+		case c == '\n':
+			sb.WriteString(`\n`)
+		case c == '\t':
+			sb.WriteString(`\t`)
+		case c == '\r':
+			sb.WriteString(`\r`)
+		case c < 0x20: // control characters cannot stand raw in a JSON string
+			fmt.Fprintf(&sb, `\u%04x`, c)
+		default:
+			sb.WriteByte(c)
+		}
+	}
+	sb.WriteByte('"')
+	return sb.String()
 }
 
 // ---------------------------------------------------------------------------
@@ -583,7 +601,14 @@ func (g *gen) scalar(inObj bool, depth int) *node {
 }
 
 func (g *gen) setFormatExample(n *node, f string) {
-	g.setString(n, formatGood[f][g.r.Intn(len(formatGood[f]))])
+	// one of a few everyday values, or (more often) a value built from the boundary parts of the format
+	// that the oracle of the harness accepts (fmtstream.go: last days of months, February 29 of leap
+	// years, hour 23 / second 59, the four uuid forms, odd but valid addresses and uris)
+	v := formatGood[f][g.r.Intn(len(formatGood[f]))]
+	if g.p(0.6) {
+		v = goodOf(g.r, f)
+	}
+	g.setString(n, v)
 	n.fmt = f
 }
 
